@@ -649,7 +649,7 @@ func RunC20(tier string, seed int64) int {
 		nc, ns, nf = 40000, 40000, 2000
 	}
 	obs := &c20obs{}
-	common.ParallelFor(nc, runtime.NumCPU()/2, func(i int) { c20Concurrent(ctx, run, obs, i) })
+	common.QuietFirst(nc, 60, runtime.NumCPU()/2, func(i int) { c20Concurrent(ctx, run, obs, i) })
 	common.ParallelFor(ns, runtime.NumCPU(), func(i int) { c20Sequential(ctx, run, obs, i) })
 	common.ParallelFor(nf, runtime.NumCPU(), func(i int) { c20Files(ctx, run, obs, i) })
 	run.Extra("observed", map[string]int64{"concurrent_histories_linearizable": obs.linOK, "concurrent_histories_illegal": obs.linIllegal,
